@@ -145,6 +145,15 @@ func init() {
 		}
 		return None, nil
 	}, 0, "reverse() -- reverse *IN PLACE*")
+	ListType.Dict["clear"] = MustNewMethod("clear", func(self Object, args Tuple) (Object, error) {
+		l := self.(*List)
+		err := UnpackTuple(args, nil, "clear", 0, 0)
+		if err != nil {
+			return nil, err
+		}
+		l.Items = nil
+		return None, nil
+	}, 0, "clear() -> None -- remove all items from L")
 }
 
 // Type of this List object
